@@ -174,7 +174,8 @@ def split_cases(lines):
             cur = i
         elif l.startswith(SESSION_PREFIXES):
             session.append(i)
-            if cur is not None:
+            # a `syn` line may also stand inside a case (a second dialect over the same cache); it does not end it
+            if cur is not None and not l.startswith("syn "):
                 cases.append((cur, i))
                 cur = None
     if cur is not None:
